@@ -34,3 +34,11 @@ Theorem C02_addressing : forall pgn da sa,
   id_priority id = 3 /\ id_pgn id = pgn /\ id_da id = Some da /\ id_sa id = sa.
 Proof. intros pgn da sa Hp Hd Hs. rewrite id_build_pdu1 by assumption. exact (exact_id_fields pgn da sa Hp Hd Hs). Qed.
 Print Assumptions C02_addressing.
+
+(* the premise of abstracting from time in this property's model: the code it models waits, polls and gives up
+   exactly where the model says (primitive codes in Proofs/W_*.v); re-extracted from the source on every run *)
+Require Import GV.Gen.Consts GV.Proofs.W_authority GV.Proofs.W_hydraulic GV.Proofs.W_net GV.Proofs.W_can.
+Theorem C02_time_abstraction : waits_authority = (@nil Z) /\ waits_hydraulic = (@nil Z) /\ waits_net = (@nil Z) /\ waits_can = (@nil Z).
+Proof. exact (conj w_authority (conj w_hydraulic (conj w_net w_can))). Qed.
+Check C02_time_abstraction : waits_authority = (@nil Z) /\ waits_hydraulic = (@nil Z) /\ waits_net = (@nil Z) /\ waits_can = (@nil Z).
+Print Assumptions C02_time_abstraction.
